@@ -374,9 +374,12 @@ impl ValueType {
             ValueType::String => Some(Value::String(value_str.to_owned())),
             ValueType::Array(_) => None,
             ValueType::Timestamp => {
+                // A local time that does not exist in the time zone (daylight saving gap) is not a value,
+                // an ambiguous one is the earliest of its instants
                 NaiveDateTime::parse_from_str(value_str, "%Y-%m-%d %H:%M:%S")
-                    .map(|x| Value::Timestamp(Local {}.from_local_datetime(&x).unwrap()))
                     .ok()
+                    .and_then(|x| Local {}.from_local_datetime(&x).earliest())
+                    .map(|x| Value::Timestamp(x))
             }
             ValueType::Interval => {
                 let parts = value_str.split(":").collect::<Vec<_>>();
